@@ -44,31 +44,34 @@ type BufObj struct {
 }
 
 type State struct {
-	pc         []*Term
-	cells      map[int]Val
-	heap       map[string]*Term
-	objs       map[int]Obj
-	text       map[string][]Piece // slice base (rendered) -> text view
-	nalloc     int                // objects allocated since allocBase was set
-	allocBase  *Term              // allocation watermark: every object allocated so far has a reference <= allocBase + nalloc
-	allocated  []*Term
-	spec       bool // executing a contract/spec function: no obligations, reads are total
-	assume     bool // evaluating a contract as an assumption (BufIs binds)
-	globals    map[string]int
-	qfActive   map[string]bool // quantified-fact symbols that occur in the path condition
-	qdone      map[string]bool
-	bufOld     map[int][]Piece // text of a buffer at the entry of the unit (or, during a contracted call, before the call)
-	entryDone  map[string]bool // entry-heap reference reads whose closure fact has been assumed
-	readLog    []traceRead     // memory reads made by the code so far (instantiation sites for facts that appear later)
-	trace      *readTrace
-	cut        bool
-	onceDone   map[string]bool
-	arrBack    map[string]SliceV // local byte arrays that were sliced: their contents live on the byte heap from then on
-	validCache map[string]bool   // conditions proved valid under a prefix of pc
-	invalidAt  map[string]int    // conditions found not valid at this pc length
-	goal       bool              // evaluating a contract clause as a proof goal (Forall may be skolemised)
-	root       *State            // the real state a contract evaluation was started from
-	noPre      bool              // values created now are not known to be pre-existing memory (results of contracted calls)
+	pc          []*Term
+	cells       map[int]Val
+	heap        map[string]*Term
+	objs        map[int]Obj
+	text        map[string][]Piece // slice base (rendered) -> text view
+	nalloc      int                // objects allocated since allocBase was set
+	allocBase   *Term              // allocation watermark: every object allocated so far has a reference <= allocBase + nalloc
+	allocated   []*Term
+	spec        bool // executing a contract/spec function: no obligations, reads are total
+	assume      bool // evaluating a contract as an assumption (BufIs binds)
+	globals     map[string]int
+	qfActive    map[string]bool // quantified-fact symbols that occur in the path condition
+	qdone       map[string]bool
+	bufOld      map[int][]Piece // text of a buffer at the entry of the unit (or, during a contracted call, before the call)
+	entryDone   map[string]bool // entry-heap reference reads whose closure fact has been assumed
+	readLog     []traceRead     // memory reads made by the code so far (instantiation sites for facts that appear later)
+	replayDepth int
+	keySk       []*Term // skolem constants of goals quantified over map keys
+	iterKeys    []*Term // keys produced by map iterations on this path
+	trace       *readTrace
+	cut         bool
+	onceDone    map[string]bool
+	arrBack     map[string]SliceV // local byte arrays that were sliced: their contents live on the byte heap from then on
+	validCache  map[string]bool   // conditions proved valid under a prefix of pc
+	invalidAt   map[string]int    // conditions found not valid at this pc length
+	goal        bool              // evaluating a contract clause as a proof goal (Forall may be skolemised)
+	root        *State            // the real state a contract evaluation was started from
+	noPre       bool              // values created now are not known to be pre-existing memory (results of contracted calls)
 }
 
 // QFact: a universally quantified formula that occurs in a contract is named by a Bool symbol qf (defined by
@@ -123,7 +126,7 @@ func (s *State) instantiate(key string, abs *Term) {
 		}
 		return
 	}
-	if !abs.hasBound {
+	if !abs.hasBound && s.replayDepth == 0 {
 		s.logRead(key, abs)
 	}
 	if len(s.qfActive) == 0 {
@@ -160,8 +163,15 @@ func (s *State) addInst(inst *Term) {
 			s.qfActive = map[string]bool{}
 		}
 		s.qfActive[n] = true
-		for _, rd := range s.readLog {
-			s.instantiate(rd.key, rd.abs)
+		// a fact that became active just now: instantiate it at the reads made so far. (Bounded: the reads are
+		// replayed from a snapshot, are not logged again, and a fact that appears while replaying is replayed at
+		// most two levels deep.)
+		if s.replayDepth < 2 {
+			s.replayDepth++
+			for _, rd := range append([]traceRead{}, s.readLog...) {
+				s.instantiate(rd.key, rd.abs)
+			}
+			s.replayDepth--
 		}
 	}
 }
@@ -183,7 +193,7 @@ func newState() *State {
 func (s *State) clone() *State {
 	n := &State{pc: append([]*Term{}, s.pc...), cells: make(map[int]Val, len(s.cells)), heap: make(map[string]*Term, len(s.heap)),
 		objs: make(map[int]Obj, len(s.objs)), text: make(map[string][]Piece, len(s.text)), nalloc: s.nalloc, allocBase: s.allocBase, allocated: append([]*Term{}, s.allocated...), spec: s.spec, assume: s.assume,
-		qdone: map[string]bool{}, readLog: s.readLog, trace: s.trace, globals: map[string]int{}, cut: s.cut, goal: s.goal, root: s.root}
+		qdone: map[string]bool{}, readLog: s.readLog, keySk: s.keySk, iterKeys: s.iterKeys, trace: s.trace, globals: map[string]int{}, cut: s.cut, goal: s.goal, root: s.root}
 	for k, v := range s.globals {
 		n.globals[k] = v
 	}
@@ -322,8 +332,13 @@ var (
 
 var plainNames = false
 
+var plainUsed = map[string]bool{}
+
 func fresh(prefix string) string {
-	if plainNames {
+	if plainNames && !plainUsed[prefix] {
+		// parameters keep their source names in models and replays — once: a second symbol asking for the same
+		// name (two map parameters) gets a numbered one
+		plainUsed[prefix] = true
 		return prefix
 	}
 	freshCtr++
